@@ -323,11 +323,11 @@ SPECS['C11'] = dict(
                 'After every request the replies (count, UID, code) are compared with what the model says must happen, the daemon\'s task table is dumped and compared with the model (UIDs and owners), '
                 'GET /sched, /queue, /u/<uid>/... and ?tuid= listings are compared with the caller\'s tasks, and every executor spawn must carry the owner\'s uid.'),
     level_note='peer credentials are supplied by the harness (SO_PEERCRED itself is not exercised); the daemon runs as root, peers are unprivileged users',
-    rule=('history = 5..50 (thorough 250) requests over UID pools {plain names, 255-byte, non-ASCII and punctuation UIDs, groups of 8..12 UIDs whose table keys share 14 low bits}; '
+    rule=('history = 5..50 (thorough 120) requests over UID pools {plain names, 255-byte, non-ASCII and punctuation UIDs, groups of 8..12 UIDs whose table keys share 14 low bits}; '
           'non-trivial = (a refused cross-user attempt and a replace and a cancel in one history) or the task table had to grow; distinct = script text'),
     assumptions=['UIDs contain no white space or brackets (trace format of the harness)', 'tasks of these histories never run out of occurrences (retirement is C04)'],
     quick=dict(workers=16, cases=200, size=100, timeout=1500, opts={'maxops': 50}),
-    thorough=dict(workers=16, cases=6000, size=100, timeout=7200, opts={'maxops': 250}),
+    thorough=dict(workers=16, cases=2000, size=100, timeout=7200, opts={'maxops': 120}),
 )
 
 SPECS['C06'] = dict(
